@@ -127,6 +127,8 @@ def mk_case(T, names, H, RL, RO, S, ops):
     hf = "H=%s RL=%d RO=%d S=%s" % (",".join(H) or "o", RL, RO, ",".join(S) or "-")
     if T.get("DH"):
         hf += " DH=1"
+    if T.get("OW"):
+        hf += " OW=1"
     B = T.get("B")
     if B is None:
         import zlib
@@ -199,6 +201,10 @@ def corpus():
     out.append(mk_case(base_T(C="2"), names, ["o", "x", "o"], 0, 0, [],
                        ["ra 0 0", "ra 1 0", "ra 2 0", "set 3", "set 4", "del"]))
     out.append(mk_case(base_T(K="E"), names, ["x", "x", "o"], 0, 0, [], ["ra 2 0", "ra 1 1", "ra 0 1", "set 3", "set 3"]))
+    # equal-but-distinct listener objects registering their same-named method: each is called, each is removed by itself
+    out.append(mk_case(base_T(C="0", OW=1), names, ["o", "o", "o"], 0, 0, [],
+                       ["rd 0 0", "rd 1 0", "ro 2", "set 3", "ud 0", "set 4", "rd 0 1", "set 5"]))
+    out.append(mk_case(base_T(C="2", OW=1), names, ["o", "o"], 0, 0, [], ["ra 0 0", "ra 1 0", "set 3", "ua 1", "set 4"]))
     # shape a: an unrelated trait of another comparison mode is notified through _anytrait_changed first
     out.append(mk_case(base_T(C="0", Z="a", X="2"), names, ["o", "o", "o"], 0, 0, ["a0", "c1"],
                        ["ro 2", "sib w 3", "set 3", "set 4", "set 4", "set 5"]))
@@ -360,6 +366,7 @@ def random_case(rng):
     # exceptions raised by the handlers
     DH = rng.random() < 0.15
     T["DH"] = 1 if DH else 0
+    T["OW"] = 1 if rng.random() < 0.25 else 0
     H = []
     for h in range(nh):
         r = rng.random()
@@ -459,6 +466,7 @@ def dispatch_case(rng):
     if rng.random() < 0.2:
         H[rng.randrange(nh)] = "r"
     T = base_T(C=rng.choice("012"), K="E" if rng.random() < 0.15 else "T")
+    T["OW"] = 1 if rng.random() < 0.3 else 0
     order = list(range(nh))
     rng.shuffle(order)
     ops = [reg_op(rng, roles[h], h) for h in order]
@@ -706,10 +714,36 @@ def run_impl(case):
         m.__name__ = meth[h]
         return m
 
+    # OW=1: the on_trait_change handlers (by name and anytrait) are the same-named bound method `on_change` of DISTINCT
+    # listener objects that all compare equal and hash alike (value objects): each listener is a handler of its own
+    class _Owner(object):
+        def __init__(self, h):
+            self.h = h
+
+        def __eq__(self, other):
+            return isinstance(other, _Owner)
+
+        def __ne__(self, other):
+            return not isinstance(other, _Owner)
+
+        def __hash__(self):
+            return 7
+
+        def on_change(self, obj, name, old, new):
+            if name == "x":
+                fire(self.h, old, new)
+    OW = Hf.get("OW") == "1"
+    if OW:
+        tags.add("handler-owners:equal-but-distinct")
+    owners = {}
     fns = {}
     for h, role in roles.items():
         if role in ("dyn", "any"):
-            fns[h] = mk_dyn(h)
+            if OW:
+                owners[h] = _Owner(h)
+                fns[h] = owners[h].on_change
+            else:
+                fns[h] = mk_dyn(h)
         elif role == "obs":
             fns[h] = mk_obs(h)
     # ---- the class
